@@ -17,7 +17,7 @@
 (*   <<L, L'>>, <<L', L>>        L' the next landmark above L               *)
 (*   <<L, L>>                    duplicate: an error, nothing is printed    *)
 (* and DENSE lists of n \in DenseLens definitions, all unnumbered, or all   *)
-(* but one (numbered 0, 2^8, 2^10 or 2^12, first or last in the list): the  *)
+(* but one (numbered v \in DenseExplicit, first or last in the list): the   *)
 (* assignment itself walks over every boundary below n, and the explicit   *)
 (* ID must be skipped by the count.                                        *)
 (*                                                                         *)
@@ -31,6 +31,7 @@
 EXTENDS Integers, Sequences, FiniteSets, TLC, Json, IOUtils
 
 CONSTANTS DenseLens,  \* lengths of the dense lists, e.g. {1100}
+          DenseExplicit, \* the ID of the one numbered definition of a dense list, e.g. {0, 1024}
           Emit        \* TRUE: write vectors (use -workers 1)
 
 VARIABLES ids, shape, stage
@@ -52,7 +53,7 @@ SparseLists ==
 DenseList(n, at, v) == [i \in 1..n |-> IF i = at THEN v ELSE -1]
 DenseLists == UNION {
      {DenseList(n, 0, -1)}
-     \cup {DenseList(n, at, v) : at \in {1, n}, v \in {w \in {0, 2^8, 2^10, 2^12} : w <= n + 1}}
+     \cup {DenseList(n, at, v) : at \in {1, n}, v \in {w \in DenseExplicit : w <= n + 1}}
    : n \in DenseLens}
 
 ShapesFor(s) == IF Len(s) = 1 THEN {3} ELSE IF Len(s) <= 3 THEN {3, 6} ELSE {2, 4}
@@ -65,15 +66,16 @@ Spec == Init /\ [][Next]_vars
 
 Out == M!MdAssign(ids)
 
-WideLaws == stage = "done" => M!LawsHold(ids, Out)
-WideIdempotent == stage = "done" /\ Out.ok => M!MdAssign(Out.ids) = Out
+\* (LET: TLC evaluates a LET definition once, an operator at every mention)
+WideLaws == stage = "done" => LET o == Out IN M!LawsHold(ids, o)
+WideIdempotent == stage = "done" => LET o == Out IN o.ok => M!MdAssign(o.ids) = o
 \* the assigned numbers stay below every landmark that is not an explicit ID of the list only as far
 \* as the list is long: an unnumbered definition never receives a wide ID
-WideAssignedSmall == stage = "done" /\ Out.ok =>
-   \A i \in 1..Len(ids) : ids[i] = -1 => Out.ids[i] <= Len(ids)
+WideAssignedSmall == stage = "done" => LET o == Out IN o.ok =>
+   \A i \in 1..Len(ids) : ids[i] = -1 => o.ids[i] <= Len(ids)
 \* reading the tokens back identifies the graph: a definition token occurs once
-WideTokensIdentify == stage = "done" /\ Out.ok =>
-   LET r == M!Refs(shape, Len(ids)) t == M!Tokens(Out.ids, r) IN
+WideTokensIdentify == stage = "done" => LET o == Out IN o.ok =>
+   LET r == M!Refs(shape, Len(ids)) t == M!Tokens(o.ids, r) IN
    \A i \in 1..Len(ids) : \A k \in 1..Len(r[i]) :
        /\ t[r[i][k]][1] = t[i][k + 1]
        /\ Len(ids) <= 8 => \A j \in 1..Len(ids) : t[j][1] = t[i][k + 1] => j = r[i][k]
@@ -81,9 +83,9 @@ WideTokensIdentify == stage = "done" /\ Out.ok =>
 \* increasing order in Metadata.tla; equal length or longer, never equal)
 ScaleInjective == \A i, j \in 1..Len(M!WideIds) : i # j => M!WideIds[i] # M!WideIds[j]
 
-Vector == [ids   |-> ids, shape |-> shape, refs |-> M!Refs(shape, Len(ids)),
-           want  |-> [ok |-> Out.ok, ids |-> Out.ids,
-                      tokens |-> IF Out.ok THEN M!Tokens(Out.ids, M!Refs(shape, Len(ids))) ELSE <<>>],
+Vector == LET o == Out r == M!Refs(shape, Len(ids)) IN
+          [ids   |-> ids, shape |-> shape, refs |-> r,
+           want  |-> [ok |-> o.ok, ids |-> o.ids, tokens |-> IF o.ok THEN M!Tokens(o.ids, r) ELSE <<>>],
            wide  |-> M!WideTable]
 
 EmitVector == (Emit /\ stage = "done") =>
